@@ -685,6 +685,11 @@ func finish(c *Ctx, last *childRun, extra []Violation, skipped int) int {
 	}
 	wall := time.Since(c.start).Seconds()
 	exhaustive := res.Complete && skipped == 0 && last != nil && last.res != nil
+	for k, v := range res.Counters {
+		if strings.Contains(k, "capped") && v > 0 {
+			exhaustive = false // an engine stopped part of its enumeration at a cap: the bounded space was not exhausted
+		}
+	}
 	cov := map[string]any{}
 	for k, v := range res.Counters {
 		cov[k] = v
